@@ -336,10 +336,6 @@ theorem absT_propArr (N : List Int) : ∀ (ctx : Ctx) (V : List F) (sub : Sh) (c
   | nil => intro V sub cm _ _; rfl
   | cons fr rest ih =>
     intro V sub cm hn hlen
-    -- one step, for any `V1` that is `V` with the maximum of the frame's row replaced
-    have step : ∀ (p : Nat) (V1 : List F) (m : Fv F), SetMax V V1 p m → p ∉ sub.idxs → p ∉ ctxIdxs rest →
-        ∀ (sib : Sh), p ∉ sib.idxs → (∀ (t : Sh), t.idxs = sub.idxs ++ p :: sib.idxs ∨ t.idxs = sib.idxs ++ p :: sub.idxs →
-          (t.idxs ++ ctxIdxs rest).Nodup) → True := fun _ _ _ _ _ _ _ _ _ => trivial
     rw [propArr_cons]
     cases fr with
     | L p r =>
